@@ -247,8 +247,14 @@ def conduit_rules(ctx, c, cfg):
         if len(rc) != 1:
             raise AnchorMissing("poll_read: expected one Conduit::read call, found %d" % len(rc))
         d = describe_operand(pr, rc[0].args[2])
-        r.check(d.startswith("min(") and "remaining(" in d and ".data" in d and d.count("remaining(") == 2, "poll_read/count=min(data.remaining,buf.remaining)", rc[0].loc(), "count = %s" % d[:80],
-                "the number of bytes moved is %s, not min(data.remaining(), buf.remaining())" % d[:80])
+        srcs = pr.sources(rc[0].args[2], stop_at_calls=False)
+        rem = [s_[1] for s_ in srcs if s_[0] == "call" and s_[1].name in ("remaining", "len", "remaining_mut", "capacity")]
+        on_data = any(".data" in describe_operand(pr, c_.args[0]) for c_ in rem if c_.args)
+        on_buf = any((c_.self_adt or "").endswith("read_buf::ReadBuf") for c_ in rem)
+        # however it is written (min, a comparison, clamp): the amount depends on what the channel holds and on the room the reader offers
+        r.check(on_data and on_buf, "poll_read/count=min(data.remaining,buf.remaining)", rc[0].loc(), "count = %s (bounded by the buffered bytes and by the reader's free space)" % d[:80],
+                "the number of bytes moved (%s) does not depend on %s: %s" % (d[:80], "the bytes buffered in the channel" if not on_data else "the free space of the reader's buffer",
+                                                                     "bytes that were never written are delivered" if not on_data else "put_slice panics when the reader's buffer is smaller than the buffered data"))
         for b, cl in callers_by_name(c, "read", self_adt=COND):
             r.check(b.defpath == pr.defpath, "Conduit::read/caller/" + owner_def(b), cl.loc(), "Conduit::read called only from poll_read", "Conduit::read has another caller")
 
